@@ -3,3 +3,4 @@ pub mod faults;
 pub mod hist2;
 pub mod hist3;
 pub mod c01;
+pub mod pure;
